@@ -25,7 +25,7 @@ pub fn c10_check<L: KeyboardLayout>(name: &str, l: &L) {
     let sh = l.map_keycode(k, &s, h);
     let cp = l.map_keycode(k, &p, h);
     let cs = l.map_keycode(k, &sp, h);
-    println!("C10 {} key={:?} ctx={:?} mode={:?} shift={} base={:?} shift={:?} caps={:?} caps+shift={:?}", name, k, c, h, which, base, sh, cp, cs);
+    crate::show!("C10 {} key={:?} ctx={:?} mode={:?} shift={} base={:?} shift={:?} caps={:?} caps+shift={:?}", name, k, c, h, which, base, sh, cp, cs);
     let letter = match (base, sh) {
         (DecodedKey::Unicode(b), DecodedKey::Unicode(u)) => upper_of(b) == Some(u),
         _ => false,
